@@ -2,7 +2,7 @@
    line, `name field field ...`; all parsing and printing is done here, in Gallina, so the OCaml
    driver only moves characters.  Field kinds: decimal number, hex byte string, and lists
    `L:hex:hex...` (`L` = empty list, `L:` = one empty string). *)
-From Scrapli Require Import Bytes Regex PlatformTypes Generated Generic.
+From Scrapli Require Import Bytes Regex PlatformTypes Generated Generic Netconf.
 Open Scope N_scope.
 
 Definition COLON : N := 58.
@@ -83,10 +83,27 @@ Definition run_rx (fs : list bytes) : list bytes :=
       else [bs "bad-op"]
   end.
 
+(* c02 10|11 raw -> ok result rpc-error parse-error | panic *)
+Definition run_c02 (fs : list bytes) : list bytes :=
+  let v := if beqb (nthf 1 fs) (bs "10") then V10 else V11 in
+  let raw := of_hex (nthf 2 fs) in
+  let show o := match o with
+                | RecOut r rpc pe => [bs "ok"; to_hex r; emit_bool rpc; emit_bool pe]
+                | RecPanic => [bs "panic"]
+                end in
+  (* the cursor-level transcription is quadratic: run it on inputs up to 400 bytes, where it must
+     agree with the functional decoder (proved equal in general); the functional one above that *)
+  if Nat.ltb (length raw) 400 then
+    let a := show (record v raw) in
+    let b := show (record_fast v raw) in
+    if beqb (unfields a) (unfields b) then a else [bs "model-internal-mismatch"]
+  else show (record_fast v raw).
+
 Definition dispatch (fs : list bytes) : list bytes :=
   let name := nthf 0 fs in
   if beqb name (bs "c13") then run_c13 fs
   else if beqb name (bs "rx") then run_rx fs
+  else if beqb name (bs "c02") then run_c02 fs
   else [bs "unknown-case"].
 
 Definition run_line (line : bytes) : bytes := unfields (dispatch (fields line)).
